@@ -3,6 +3,7 @@ package main
 import (
 	"fmt"
 	"go/ast"
+	"go/constant"
 	"go/token"
 	"go/types"
 	"sort"
@@ -20,12 +21,15 @@ func init() {
 
 // guardedMustCall: on every path of g to a target node, a gate node occurs first, or the path leaves an
 // `if cond { ...gate... }` through its false edge (the guard of the gate decides applicability).
+// guardFilter, when set, decides whether the condition of an `if cond { gate }` may stand for "not applicable".
+var guardFilter func(ifs *ast.IfStmt) bool
+
 func guardedMustCall(g *cfg.CFG, root ast.Node, isGate func(ast.Node) bool, isTarget func(ast.Node) bool, atReturn bool) (hits []FlowHit, nTargets int) {
 	guardOf := map[ast.Expr]bool{}
 	ast.Inspect(root, func(n ast.Node) bool {
 		if ifs, ok := n.(*ast.IfStmt); ok {
 			for _, st := range ifs.Body.List {
-				if isGate(st) {
+				if isGate(st) && (guardFilter == nil || guardFilter(ifs)) {
 					guardOf[ifs.Cond] = true
 				}
 			}
@@ -112,12 +116,68 @@ func c01R3(c *Ctx, r *Report) {
 		{pkgWasm, "(*Generator).emitUnary", "MINUS_TOKEN", "valTypeI32", wWrap, nil, "negation (i32 value type)"},
 		{pkgWasm, "(*Generator).emitCast", "", "", wWrap, localSet, "cast to an i32-represented type"},
 	}
+	defer func() { guardFilter = nil }()
+	toks := loadTokens(c)
 	for _, s := range sites {
 		fn := c.LookupFn(s.pkg, s.fn)
 		if !r.Anchor(rule, fn != nil, s.pkg+"."+s.fn) {
 			continue
 		}
 		info := fn.Info()
+		// A guard may depend on the *type* (sub-word or not) and on "is a comparison". A guard that depends on the
+		// operator in any other way is accepted only if the operators it exempts are the bitwise/logical ones, whose
+		// result cannot leave the operand range (decided by evaluating the predicate over every operator token).
+		guardFilter = func(ifs *ast.IfStmt) bool {
+			okAll := true
+			for _, cj := range conjuncts(ifs.Cond) {
+				e := ast.Unparen(cj)
+				neg := false
+				if u, isNot := e.(*ast.UnaryExpr); isNot && u.Op == token.NOT {
+					neg = true
+					e = ast.Unparen(u.X)
+				}
+				cl, isCall := e.(*ast.CallExpr)
+				if !isCall {
+					continue // comparisons of locals (bits > 0, toVal == valTypeI32 …)
+				}
+				f := callee(info, cl)
+				if f == nil {
+					okAll = false
+					continue
+				}
+				switch f.Name() {
+				case "subWordIntBits", "isCompareToken":
+					continue
+				}
+				hf := c.FnOf(f)
+				if hf == nil || len(cl.Args) != 1 || !strings.HasSuffix(exprStr(cl.Args[0]), ".Op") {
+					okAll = false
+					continue
+				}
+				pe := newPEval(c)
+				for _, name := range sortedKeys(toks.byName) {
+					res, err := pe.Call(hf, []Val{toks.byName[name]})
+					if err != nil || len(res) != 1 {
+						continue
+					}
+					bv, isConst := res[0].(constant.Value)
+					if !isConst || bv.Kind() != constant.Bool {
+						okAll = false
+						continue
+					}
+					wraps := boolVal(bv) != neg // guard true => the wrap runs
+					if !wraps {
+						switch name {
+						case "BIT_AND_TOKEN", "BIT_OR_TOKEN", "BIT_XOR_TOKEN", "AND_TOKEN", "OR_TOKEN",
+							"LESS_TOKEN", "LESS_EQUAL_TOKEN", "GREATER_TOKEN", "GREATER_EQUAL_TOKEN", "DOUBLE_EQUAL_TOKEN", "NOT_EQUAL_TOKEN":
+						case "PLUS_TOKEN", "MINUS_TOKEN", "MUL_TOKEN", "DIV_TOKEN", "MOD_TOKEN": // (** is lowered by its own clause)
+							okAll = false
+						}
+					}
+				}
+			}
+			return okAll
+		}
 		var root ast.Node = fn.Decl.Body
 		var g *cfg.CFG
 		if s.clause != "" {
@@ -715,4 +775,147 @@ func c02R5(c *Ctx, r *Report) {
 		return true
 	})
 	r.Floor(rule, n, 4, "escape sequences written by escapeString")
+}
+
+func init() {
+	lateInits = append(lateInits, func() {
+		props["C01"].Quick = append(props["C01"].Quick, c02R3b)
+		props["C02"].Quick = append(props["C02"].Quick, c02R3b)
+		props["C11"].Quick = append(props["C11"].Quick, c02R3b)
+	})
+}
+
+// C02.R3b: when the QBE emitter widens a 32-bit operand to 64 bits, the signedness it consults is that of the
+// operand being widened — the type variable and the operand name come from the same MIR value id.
+func c02R3b(c *Ctx, r *Report) {
+	const rule = "C02.R3b"
+	r.Describe(rule, "QBE: every word->long extension (ensureLong(id, sign) calls and open-coded extsw/extuw selections) takes the signedness from valueTypes[id] of the same value id it extends")
+	isS := c.LookupFn(pkgQBE, "(*Generator).isSigned")
+	isU := c.LookupFn(pkgQBE, "(*Generator).isUnsigned")
+	vname := c.LookupFn(pkgQBE, "(*Generator).valueName")
+	if !r.Anchor(rule, isS != nil && isU != nil && vname != nil, "qbe isSigned / isUnsigned / valueName") {
+		return
+	}
+	ens := c.LookupFn(pkgQBE, "(*Generator).ensureLong") // optional helper
+	n := 0
+	for _, fn := range c.AllFns(pkgQBE) {
+		info := fn.Info()
+		defs := localDefs(fn)
+		// value id behind a type expression: T := g.valueTypes[ID]  (or the index expression itself)
+		var idOfType func(e ast.Expr, depth int) string
+		idOfType = func(e ast.Expr, depth int) string {
+			e = ast.Unparen(e)
+			if ix, ok := e.(*ast.IndexExpr); ok && strings.HasSuffix(exprStr(ix.X), ".valueTypes") {
+				return exprStr(ix.Index)
+			}
+			if o := objOf(info, e); o != nil && depth < 3 {
+				ids := map[string]bool{}
+				for _, d := range defs[o] {
+					ids[idOfType(d, depth+1)] = true
+				}
+				if len(ids) == 1 {
+					for k := range ids {
+						return k
+					}
+				}
+			}
+			return ""
+		}
+		// value id behind an operand name: O := g.valueName(ID)
+		var idOfOperand func(e ast.Expr, depth int) string
+		idOfOperand = func(e ast.Expr, depth int) string {
+			e = ast.Unparen(e)
+			if cl, ok := e.(*ast.CallExpr); ok && isCallTo(info, cl, vname.Obj) && len(cl.Args) == 1 {
+				return exprStr(cl.Args[0])
+			}
+			if o := objOf(info, e); o != nil && depth < 3 {
+				ids := map[string]bool{}
+				for _, d := range defs[o] {
+					if id := idOfOperand(d, depth+1); id != "" {
+						ids[id] = true
+					}
+				}
+				if len(ids) == 1 {
+					for k := range ids {
+						return k
+					}
+				}
+			}
+			return ""
+		}
+		signArg := func(e ast.Expr) ast.Expr {
+			e = ast.Unparen(e)
+			if u, ok := e.(*ast.UnaryExpr); ok && u.Op == token.NOT {
+				e = ast.Unparen(u.X)
+			}
+			if cl, ok := e.(*ast.CallExpr); ok && isCallTo(info, cl, isS.Obj, isU.Obj) && len(cl.Args) == 1 {
+				return cl.Args[0]
+			}
+			return nil
+		}
+		// (a) ensureLong(id, sign)
+		if ens != nil && fn.Obj != ens.Obj {
+			for _, call := range callsIn(fn.Decl.Body, false) {
+				if !isCallTo(info, call, ens.Obj) || len(call.Args) != 2 {
+					continue
+				}
+				n++
+				want := exprStr(call.Args[0])
+				got := ""
+				if t := signArg(call.Args[1]); t != nil {
+					got = idOfType(t, 0)
+				}
+				r.Check(got == want, rule, fn.Name(), "ensureLong("+want+", …): signedness of the same value", c.pos(call.Pos()),
+					fmt.Sprintf("the operand %s is extended to 64 bits with the signedness of %q: a u32 >= 2^31 compared with an i64 is sign-extended (or a negative i32 zero-extended) and the comparison gives the wrong answer", want, got))
+			}
+		}
+		// (b) open-coded: if g.isSigned(T) { …ext… O } else { …ext… O }
+		ast.Inspect(fn.Decl.Body, func(x ast.Node) bool {
+			ifs, ok := x.(*ast.IfStmt)
+			if !ok {
+				return true
+			}
+			t := signArg(ifs.Cond)
+			if t == nil {
+				return true
+			}
+			// extension lines in the branches
+			var operands []ast.Expr
+			for _, br := range []ast.Node{ifs.Body, ifs.Else} {
+				if br == nil {
+					continue
+				}
+				for _, call := range callsIn(br, false) {
+					f := callee(info, call)
+					if f == nil || f.Name() != "Sprintf" || len(call.Args) < 3 {
+						continue
+					}
+					if v := constOf(info, call.Args[0]); v != nil {
+						s, _ := strOf(v)
+						if strings.Contains(s, "=l extsw %s") || strings.Contains(s, "=l extuw %s") {
+							operands = append(operands, call.Args[len(call.Args)-1])
+						}
+					}
+				}
+			}
+			if len(operands) == 0 {
+				return true
+			}
+			n++
+			tid := idOfType(t, 0)
+			okAll := tid != ""
+			var oids []string
+			for _, o := range operands {
+				oid := idOfOperand(o, 0)
+				oids = append(oids, oid)
+				if oid != tid {
+					okAll = false
+				}
+			}
+			r.Check(okAll, rule, fn.Name(), "extsw/extuw of "+strings.Join(oids, ",")+" chosen by the type of the same value", c.pos(ifs.Pos()),
+				fmt.Sprintf("the extension of %v is selected by the signedness of %q", oids, tid))
+			return true
+		})
+	}
+	r.Floor(rule, n, 3, "word->long extension sites in the QBE emitter")
 }
